@@ -31,6 +31,17 @@ import (
 
 // ---- reference decoders (protocol layout), never compiled into the library ----
 
+// byte-sized array of 16-bit integers (written by hand here: the reference does not lean on the
+// library's own reader, which a clean-up may rename)
+func zzSpecShortArray(din *io.DataInputX) []int16 {
+	sz := int(din.ReadByte())
+	out := make([]int16, sz)
+	for i := 0; i < sz; i++ {
+		out[i] = din.ReadShort()
+	}
+	return out
+}
+
 func zzSpecHeader(this *AbstractPack, din *io.DataInputX) {
 	tag := din.ReadByte()
 	if tag == 9 {
@@ -150,7 +161,7 @@ func zzSpecCounterPack1(this *CounterPack1, in *io.DataInputX) {
 	this.HttpcError = int32(din.ReadDecimal())
 	this.HttpcTime = din.ReadDecimal()
 	this.ActSvcCount = int32(din.ReadDecimal())
-	this.ActSvcSlice = this.readShortArray(din)
+	this.ActSvcSlice = zzSpecShortArray(din)
 	this.Cpu = din.ReadFloat()
 	this.CpuSys = din.ReadFloat()
 	this.CpuUsr = din.ReadFloat()
